@@ -226,3 +226,32 @@ def write_replay(prop, payload):
 def write_evidence(prop, ev):
     EVIDENCE.mkdir(exist_ok=True)
     (EVIDENCE / f"{prop}.json").write_text(json.dumps(ev, indent=1, ensure_ascii=False) + "\n")
+
+
+def db_lines_for(query_lines):
+    """For `query` protocol lines: ask the model which phrases may be looked up,
+    resolve them on the real database (harness `lookup`), and return the `db`
+    header lines that give the model's abstract database the same answers."""
+    qs = [l for l in query_lines if l.startswith("query ")]
+    if not qs:
+        return []
+    rc, out, err = run_lines(driver_bin(), ["phrases " + l.split(" ")[1] for l in qs], timeout=1200)
+    phrases = []
+    seen = set()
+    for o in out:
+        for h in o.split(" ")[1:]:
+            if h not in seen:
+                seen.add(h)
+                phrases.append(h)
+    if not phrases:
+        return []
+    rc, res, err = run_lines(harness_bin(False), ["lookup " + h for h in phrases], timeout=1200, watchdog=10)
+    lines = []
+    for h, r in zip(phrases, res):
+        f = r.split(" ")
+        if f[:2] == ["L", "OK"]:
+            lines.append(f"db {h} {f[2]} {f[3]} {f[4]}")
+        elif f[:2] == ["L", "NONE"]:
+            lines.append(f"db {h} NONE")
+        # lookup errors: leave the phrase unknown (the model answers lookupError as well)
+    return lines
